@@ -446,7 +446,9 @@ fn do_case(t: &mut Trace, st: &mut Stats, case: u64, spec: &PipeSpec, msgs: &[Dl
 }
 
 fn main() {
-    quiet_panics();
+    if std::env::var("VERIF_LOUD").is_err() {
+        quiet_panics();
+    }
     let a = Args::from_env();
     let mut t = Trace::create(&a.str("--out", "trace.ndjson"));
     let seed = a.num("--seed", 1);
@@ -469,7 +471,14 @@ fn main() {
             let mut rng = Rng::new(seed.wrapping_mul(1_000_003).wrapping_add(cno));
             let kinds: Vec<String> = serde_json::from_value(scn["kinds"].clone()).unwrap();
             let spec = spec_from_kinds(&kinds, rng.chance(1, 2));
-            let caps: Vec<usize> = scn["caps"].as_array().unwrap().iter().map(|x| x.as_u64().unwrap() as usize).collect();
+            let mut caps: Vec<usize> = scn["caps"].as_array().unwrap().iter().map(|x| x.as_u64().unwrap() as usize).collect();
+            let mut spec = spec;
+            if spec.sort && cno % 2 == 1 {
+                // every second scenario with a sorter is also run without it (the unsorted pipeline carries the stronger
+                // claim: the exact sequence); the sorter's output channel disappears with it
+                spec.sort = false;
+                caps.remove(2 + (spec.plugin > 0) as usize);
+            }
             let long_span = rng.chance(1, 2);
             let msgs = gen_stream(&mut rng, scn_len, long_span);
             // abstract positions (0..nmsgs of the model) are mapped proportionally onto the real stream
